@@ -36,6 +36,10 @@ structure GasBlind (cfg : Cfg K V) (hs : Handlers K V C E T H D) : Prop where
     ((hs.fee tx (g + d)).run cfg s' m e).1 = ((hs.fee tx g).run cfg s m e).1 ∧
     ShiftSt d ((hs.fee tx g).run cfg s m e).2.1 ((hs.fee tx (g + d)).run cfg s' m e).2.1 ∧
     ((hs.fee tx (g + d)).run cfg s' m e).2.2 = ((hs.fee tx g).run cfg s m e).2.2
+  /-- … and whether the meter is exhausted when the fee step ends (the test `txDeliverer` makes
+      before it commits the session) does not depend on the level either -/
+  out : ∀ tx (g d : Int) (s s' : St K V) (m : Vol C V) (e : E), ShiftSt d s s' →
+    gasOut ((hs.fee tx (g + d)).run cfg s' m e).2.1.gas = gasOut ((hs.fee tx g).run cfg s m e).2.1.gas
 
 /-- no deliver-path program writes a volatile cell (T3 table `volatileWrites`) -/
 def DeliverNoVset (hs : Handlers K V C E T H D) : Prop :=
